@@ -9,8 +9,8 @@
 //!   r  n <n*6: r height custom_format custom_height s hidden>  k <k*3>  m <m rows>
 //!   rx ... same ... a <a*3>
 //! kinds: 0 set width/height, 1 set hidden, 2 set style, 3 delete style.
-//! Observation: per step `ok`, per step `defect class predicate`, the descriptor vector, and per
-//! observed column: shown width, actual width, hidden, style+1 (all -1 when the getter refuses).
+//! Observation: per step `ok` (rows: also per step whether the step creates the record), the
+//! descriptor vector, and per observed column: shown width, actual width, hidden, style+1 (all -1 when the getter refuses).
 use ironcalc_base::types::{Col, Row, Style};
 use ironcalc_base::{Model, COLUMN_WIDTH_FACTOR, ROW_HEIGHT_FACTOR};
 use serde_json::json;
@@ -78,23 +78,6 @@ impl H {
             (Err(_), Ok(_)) => -8,
         };
         [shown, actual, hidden, style]
-    }
-    /// the defect class predicate of Sheet/Cols.v evaluated on the implementation's state
-    fn col_defect(&self, o: Op) -> (bool, &'static str) {
-        if !(1..=16384).contains(&o.j) { return (false, ""); }
-        let ob = self.col_obs(o.j);
-        let (shown, actual, hidden, style) = (ob[0], ob[1], ob[2] == 1, ob[3]);
-        match o.kind {
-            2 => {
-                if shown < 0 { return (false, ""); }
-                let spans = self.cols().iter().find(|c| c.min <= o.j && o.j <= c.max).map(|c| !(c.min == o.j && c.max == o.j)).unwrap_or(false);
-                if spans && style != o.v + 1 { return (true, "col_style_lost_in_multi_column_descriptor"); }
-                if hidden && actual != 0 { return (true, "col_width_zeroed_by_style_on_hidden_column"); }
-                (false, "")
-            }
-            3 => if hidden { (true, "col_unhidden_by_delete_style") } else { (false, "") },
-            _ => (false, ""),
-        }
     }
     fn cols_ints(&self, out: &mut Vec<i64>) {
         let cs = self.cols();
@@ -179,7 +162,7 @@ struct Ctx { cs: Cases, or: Oracle, nodes: u64, frame_checks: u64, defect_steps:
 const KIND_NAME: [&str; 4] = ["set_size", "set_hidden", "set_style", "delete_style"];
 
 /// the frame property on the implementation for one step on columns
-fn oracle_cols(h: &H, ctx: &mut Ctx, layout: &[Col], prefix: &[Op], o: Op, before: &[(i32, [i64; 4])], ok: bool, wf: bool, spans_before: bool) {
+fn oracle_cols(h: &H, ctx: &mut Ctx, layout: &[Col], prefix: &[Op], o: Op, before: &[(i32, [i64; 4])], ok: bool, wf: bool) {
     if !wf { return; }
     for (j, b) in before {
         let a = h.col_obs(*j);
@@ -198,11 +181,8 @@ fn oracle_cols(h: &H, ctx: &mut Ctx, layout: &[Col], prefix: &[Op], o: Op, befor
         let names = ["shown_width", "width", "hidden", "style"];
         for t in 1..4 {
             if a[t] != e[t] {
-                // classify by a predicate on the state before the step
-                let class = if *j == o.j && o.kind == 2 && t == 3 && spans_before && b[3] != o.v + 1 && a[3] == b[3] { "col_style_lost_in_multi_column_descriptor".to_string() }
-                else if *j == o.j && o.kind == 2 && t == 1 && b[2] == 1 && b[1] != 0 && a[1] == 0 { "col_width_zeroed_by_style_on_hidden_column".to_string() }
-                else if *j == o.j && o.kind == 3 && t == 2 && b[2] == 1 { "col_unhidden_by_delete_style".to_string() }
-                else { format!("frame:col:{}:{}", KIND_NAME[o.kind as usize], names[t]) };
+                // F23a/b/c are repaired (acf9a86, ae7cffd, 973383c): every column failure is a violation
+                let class = format!("frame:col:{}:{}", KIND_NAME[o.kind as usize], names[t]);
                 ctx.or.fail(&class, json!({"layout": col_layout_str(layout), "ops_before": ops_str(prefix), "op": [KIND_NAME[o.kind as usize], o.j, o.v], "column": j, "attribute": names[t]}),
                     format!("{} of column {} is {} after the step, expected {} (before: {})", names[t], j, a[t], e[t], b[t]));
             }
@@ -219,24 +199,21 @@ fn is_wf(cs: &[Col]) -> bool {
     true
 }
 
-/// one step on the current state; returns (ok, defect-class predicate)
-fn col_step(h: &mut H, ctx: Option<&mut Ctx>, layout: &[Col], prefix: &[Op], o: Op, obs: &[i32]) -> (i64, i64) {
-    let (d, _) = h.col_defect(o);
+/// one step on the current state; returns ok
+fn col_step(h: &mut H, ctx: Option<&mut Ctx>, layout: &[Col], prefix: &[Op], o: Op, obs: &[i32]) -> i64 {
     match ctx {
-        None => (h.apply_col(o) as i64, d as i64),
+        None => h.apply_col(o) as i64,
         Some(c) => {
             let before: Vec<(i32, [i64; 4])> = obs.iter().map(|&j| (j, h.col_obs(j))).collect();
             let wf = is_wf(h.cols());
-            let spans = h.cols().iter().find(|c| c.min <= o.j && o.j <= c.max).map(|c| c.min != c.max).unwrap_or(false);
             let ok = h.apply_col(o);
-            if d { c.defect_steps += 1; }
-            oracle_cols(h, c, layout, prefix, o, &before, ok, wf, spans);
-            (ok as i64, d as i64)
+            oracle_cols(h, c, layout, prefix, o, &before, ok, wf);
+            ok as i64
         }
     }
 }
-fn col_final(h: &H, oks: &[i64], defs: &[i64], obs: &[i32]) -> Vec<i64> {
-    let mut out = oks.to_vec(); out.extend_from_slice(defs);
+fn col_final(h: &H, oks: &[i64], obs: &[i32]) -> Vec<i64> {
+    let mut out = oks.to_vec();
     h.cols_ints(&mut out);
     for &j in obs { out.extend_from_slice(&h.col_obs(j)); }
     out
@@ -244,14 +221,13 @@ fn col_final(h: &H, oks: &[i64], defs: &[i64], obs: &[i32]) -> Vec<i64> {
 /// observation of a column history, as integers; the oracle runs on steps >= oracle_from
 fn col_observation(h: &mut H, ctx: Option<&mut Ctx>, layout: &[Col], ops: &[Op], obs: &[i32], oracle_from: usize) -> Vec<i64> {
     h.set_cols(layout);
-    let mut oks = vec![]; let mut defs = vec![];
+    let mut oks = vec![];
     let mut ctx = ctx;
     for (i, &o) in ops.iter().enumerate() {
         let c = if i >= oracle_from { ctx.as_deref_mut() } else { None };
-        let (ok, d) = col_step(h, c, layout, &ops[..i], o, obs);
-        oks.push(ok); defs.push(d);
+        oks.push(col_step(h, c, layout, &ops[..i], o, obs));
     }
-    col_final(h, &oks, &defs, obs)
+    col_final(h, &oks, obs)
 }
 
 fn oracle_rows(h: &H, ctx: &mut Ctx, layout: &[Row], prefix: &[Op], o: Op, before: &[(i32, [i64; 7])], ok: bool, had_record: bool) {
@@ -337,14 +313,14 @@ fn dfs(h: &mut H, ctx: &mut Ctx, layout_s: &str, cols: Option<&[Col]>, rows: Opt
             let (mut oks, mut defs) = (vec![], vec![]);
             if let Some(cs) = cols {
                 h.set_cols(cs);
-                for (i, &o) in ops.iter().enumerate() { let (k, d) = col_step(h, None, cs, &ops[..i], o, obs); oks.push(k); defs.push(d); }
+                for (i, &o) in ops.iter().enumerate() { oks.push(col_step(h, None, cs, &ops[..i], o, obs)); }
                 let saved = h.cols().clone();
                 for &o in alphabet {
                     h.set_cols(&saved);
-                    let (k, d) = col_step(h, Some(ctx), cs, ops, o, obs);
-                    oks.push(k); defs.push(d);
-                    hsh = hash_ints(&col_final(h, &oks, &defs, obs), hsh);
-                    oks.pop(); defs.pop();
+                    let k = col_step(h, Some(ctx), cs, ops, o, obs);
+                    oks.push(k);
+                    hsh = hash_ints(&col_final(h, &oks, obs), hsh);
+                    oks.pop();
                     ctx.nodes += 1;
                 }
             } else {
@@ -571,7 +547,7 @@ fn main() {
             "column_layouts": col_layouts.len(), "column_alphabet": alphabet.len(), "text_depth": text_depth, "hashed_extra_level": a.thorough,
             "column_exhaustive_nodes": col_nodes, "column_cases_total": col_total,
             "row_layouts": row_layouts.len(), "row_alphabet": ralpha.len(), "row_cases_total": nodes - col_total,
-            "random_histories_each": nrandom, "steps_in_defect_or_materialise_class": defect_steps,
+            "random_histories_each": nrandom, "row_steps_creating_a_record": defect_steps,
             "float_roundtrip_sizes": fl_checked / 2, "float_width_readback_failures": fl_bad_w, "float_height_readback_failures": fl_bad_h, "first_bad_heights": first_bad_h,
         },
         "distinct_nontrivial": nodes,
